@@ -630,6 +630,17 @@ def work_c13(prop, tier, seed, widx, nworkers):
                 res = cases.run_case(case, built)
                 acc.add(case, res)
         built.close()
+        # early end caused by an event manager that raises while a second manager's callback is suspended
+        built2 = harness.Built(prog, events=True, store=False, events2=True)
+        for name in ('node_start', 'node_complete'):
+            for k in range(3):
+                case = base_case(prog, [['r0', val]], rng, events2=True, gate_events2=rng.choice([0.5, 1.0]),
+                                 collab_faults=[[name, k]], placement=f'collab:{name}:{k}')
+                case.pop('pool_cap', None)
+                res = cases.run_case(case, built2)
+                acc.add(case, res)
+                acc.counters['manager_fault_cases'] = acc.counters.get('manager_fault_cases', 0) + 1
+        built2.close()
     return acc.result()
 
 
